@@ -29,7 +29,14 @@ func (h *harness) rpmHdrRun(lr *limitReader, res *rpm.HeaderResultForVerif) stri
 			return "err:load"
 		}
 		i := r.Info
-		return fmt.Sprintf("ok name=%s ver=%s rel=%s epoch=%d arch=%s src=%s mod=%s digest=%s algo=%d sig=%d",
+		nb, sum := 0, 0
+		for _, f := range i.Filenames {
+			nb += len(f)
+			for k := 0; k < len(f); k++ {
+				sum += int(f[k])
+			}
+		}
+		return fmt.Sprintf("files=%d:%d:%d ", len(i.Filenames), nb, sum) + fmt.Sprintf("ok name=%s ver=%s rel=%s epoch=%d arch=%s src=%s mod=%s digest=%s algo=%d sig=%d",
 			hx.Hex([]byte(i.Name)), hx.Hex([]byte(i.Version)), hx.Hex([]byte(i.Release)), i.Epoch, hx.Hex([]byte(i.Arch)),
 			hx.Hex([]byte(i.SourceNEVR)), hx.Hex([]byte(i.Module)), hx.Hex([]byte(i.Digest)), i.DigestAlgo, len(i.Signature))
 	})
@@ -45,6 +52,8 @@ func (h *harness) opRpmHdr(b []byte, how string) {
 		cls := ""
 		if wantedAllocEstimate(b)*2 >= alloc-rpmAllocBound(len(b)) {
 			cls = knownRpmQuadratic
+		} else if filenameWork(b)*8 >= alloc-rpmAllocBound(len(b)) {
+			cls = knownRpmFilenames
 		}
 		h.fail(cls, fmt.Sprintf("rpm-header-allocation-out-of-proportion allocated=%d header-bytes=%d how=%s header=%s", alloc, len(b), how, hx.Hex(b)))
 	}
@@ -73,8 +82,25 @@ func (h *harness) opRpmHdr(b []byte, how string) {
 	for _, m := range strings.Split(how, "+") {
 		h.r.Count("rpmhdr:" + m)
 	}
-	h.r.Count("rpmhdr-out:" + strings.Fields(out)[0])
+	kind := strings.Fields(out)[0]
+	if strings.HasPrefix(kind, "files=") {
+		h.r.Count("rpmhdr-files:" + countBucket(len(res.Info.Filenames)))
+		kind = "ok"
+	}
+	h.r.Count("rpmhdr-out:" + kind)
 	h.r.Op("rpmhdr "+hx.Hex(b), out, out != "err:parse")
+}
+
+func countBucket(n int) string {
+	switch {
+	case n == 0:
+		return "0"
+	case n <= 2:
+		return "1-2"
+	case n <= 8:
+		return "3-8"
+	}
+	return "9+"
 }
 
 func (h *harness) rpmHdrStream() {
